@@ -65,11 +65,14 @@ def run(c):
     # byte-level fuzz
     n = 400 if c.tier == "quick" else 20000
     ff = os.path.join(c.scratch, "fuzz.ndjson")
-    c.vh(["hostile-fuzz", ff, n], timeout=3000)
+    c.vh(["hostile-fuzz", ff, n, 900], timeout=6000, env={"VERIF_TIER": c.tier})
     lines = [l.rstrip("\n") for l in open(ff)]
     n_ok, failures = tv.validate_dropping(c, "FormatTrace", "FormatTrace.cfg", lines, "fuzz", max_fail=30)
     c.cov["traces_validated_against_impl"] = n_ok
     c.cov["fuzzed_blobs"] = len(lines)
+    c.cov["structural_variants"] = sum(1 for l in lines if json.loads(l)["item"]["struct"] >= 0)
+    if c.cov["structural_variants"] < 150:
+        raise Broken("only %d structural variants of the JSON documents were served" % c.cov["structural_variants"])
     st = {}
     for l in lines:
         s = json.loads(l)["o"]["status"]
@@ -83,7 +86,7 @@ def run(c):
         if key in seen:
             continue
         seen.add(key)
-        c.report(key, "fuzzed %s blob (seed %d, position %d, local %s): %s" % (ev["item"]["kind"], ev["item"]["seed"], ev["item"]["pos"], ev["item"]["local"], what), {"fuzz_item": ev["item"]})
+        c.report(key, "fuzzed %s blob (seed %d, structural variant %d, position %d, local %s): %s" % (ev["item"]["kind"], ev["item"]["seed"], ev["item"]["struct"], ev["item"]["pos"], ev["item"]["local"], what), {"fuzz_item": ev["item"]})
     e = json.loads(lines[0])
     e["o"]["crashed"] = True
     n2, f2 = tv.validate_dropping(c, "FormatTrace", "FormatTrace.cfg", [json.dumps(e)], "fuzz-selftest", max_fail=1)
